@@ -556,7 +556,17 @@ func (ip *Interp) store(addr, val Value) {
 		}
 	case *Tok:
 		// *p = structValue: whole-object assignment; only zero-value initialisation is supported
-		if t, ok := val.(*Tok); ok && (t.Class == "zero" || t.Class == "struct") {
+		if t, ok := val.(*Tok); ok {
+			if t.Class == "zero" || t.Class == "struct" {
+				return
+			}
+			// struct value copy: the destination takes over the source's fields
+			for k, v := range t.Fields {
+				a.Fields[k] = v
+			}
+			for k, v := range t.Attr {
+				a.Attr[k] = v
+			}
 			return
 		}
 		undecided("whole-struct store into %s", a.ID)
